@@ -1,6 +1,7 @@
 (* C14 - a node restarted on its store is indistinguishable from one that never stopped. *)
 From Coq Require Import List Arith Bool.
 From Verif Require Import Restart.
+From Verif Require Routing Replicate ReplicateProofs ReplicateRetry.
 Import ListNotations.
 
 (* For every history of operations, queries and restarts placed anywhere: the restarted node produces exactly the
@@ -37,3 +38,25 @@ Print Assumptions C14_seq_never_reused.
 
 Example C14_seq_example : seq_run 3 [Issue; Reopen; Issue; Issue; Reopen; Reopen; Issue] = [4; 5; 6; 7].
 Proof. reflexivity. Qed.
+
+(* peer configuration: after every history of SetReplicator / DeleteReplicator calls and restarts the routing table in
+   memory routes a peer exactly the collections persisted for it; the table rebuilt at start takes the same routing
+   decisions as the one maintained in place (the coherence hypothesis above, proved for this component) *)
+Theorem C14_replicator_routing_survives_restart : forall ops c p,
+  Routing.coherent (Routing.crun ops) /\
+  Routing.routes (Routing.tab (Routing.cstep (Routing.crun ops) Routing.Restart)) c p =
+    Routing.routes (Routing.tab (Routing.crun ops)) c p /\
+  (Routing.routes (Routing.tab (Routing.crun ops)) c p = true <-> In c (Routing.lookup p (Routing.cfg (Routing.crun ops)))).
+Proof.
+  intros ops c p. split; [apply Routing.routing_coherent|].
+  split; [apply Routing.restart_keeps_routing | apply Routing.routed_iff_configured].
+Qed.
+Print Assumptions C14_replicator_routing_survives_restart.
+
+(* a retry round interrupted by a restart: with the marks cleared at start the documents pending for a replicator
+   are still delivered once it is reachable; with the mark left in the store (the pinned behaviour) they never are *)
+Theorem C14_interrupted_retry_round : forall es,
+  ReplicateRetry.delivered (ReplicateRetry.base (ReplicateRetry.rrun true ReplicateRetry.rinit
+    (es ++ [ReplicateRetry.RUp; ReplicateRetry.RTickBegin; ReplicateRetry.RTickEnd]))).
+Proof. exact ReplicateRetry.eventually_delivered_interruptible. Qed.
+Print Assumptions C14_interrupted_retry_round.
